@@ -267,6 +267,58 @@ func pickTarget(c *explore.Ctx) target {
 
 var classBytes = []byte{0x00, 0x01, 0x02, 0x05, 0x08, 0x09, 0x0a, 0x0b, 0x0c, 0x0d, 0x10, 0x12, 0x15, 0x7f, 0x80, 0xff}
 
+// ---- top-level targets that are not structs: Unmarshal hands the raw input to the scalar codecs, nothing delimits it
+
+var topTargets = []reflect.Type{
+	reflect.TypeOf(false), reflect.TypeOf(int(0)), reflect.TypeOf(int32(0)), reflect.TypeOf(int64(0)), reflect.TypeOf(uint(0)), reflect.TypeOf(uint32(0)), reflect.TypeOf(uint64(0)),
+	reflect.TypeOf(float32(0)), reflect.TypeOf(float64(0)), reflect.TypeOf(""), reflect.TypeOf([]byte(nil)), reflect.TypeOf([8]byte{}), reflect.TypeOf(proto.RawMessage(nil)),
+} // top-level maps and slices other than []byte are not supported types (codecOf panics by design)
+
+func toplevelTargets(c *explore.Ctx) {
+	t := topTargets[c.Choose(len(topTargets))]
+	ptr := c.Choose(3) // T, *T, **T behind the pointer handed to Unmarshal
+	tt := t
+	for i := 0; i < ptr; i++ {
+		tt = reflect.PointerTo(tt)
+	}
+	var n int64
+	run := func(in []byte) {
+		n++
+		in = append(make([]byte, 0, len(in)), in...)[:len(in):len(in)] // capacity ends with the input: reading past it faults
+		out := reflect.New(tt)
+		if pv, ps := explore.Catch(func() { proto.Unmarshal(in, out.Interface()) }); pv != nil {
+			c.Fail("toplevel:panic:"+ps+":"+explore.PanicClass(pv), "Unmarshal(% x) into a top-level %s panicked: %v", trunc(in), tt, pv)
+		}
+	}
+	run(nil)
+	for a := 0; a < 256; a++ {
+		run([]byte{byte(a)})
+		for b := 0; b < 256; b++ {
+			run([]byte{byte(a), byte(b)})
+		}
+	}
+	for l := 3; l <= 12; l++ {
+		for _, fill := range []byte{0x00, 0x01, 0x7f, 0x80, 0xff, 0x0a, 0x08} {
+			in := bytes.Repeat([]byte{fill}, l)
+			run(in)
+			for _, last := range []byte{0x00, 0x01, 0x7f} { // a varint that ends
+				in[l-1] = last
+				run(in)
+			}
+			for _, first := range []byte{0x08, 0x0a, 0x0d, 0x09, byte(l - 1), byte(l - 2), byte(l)} { // tags and lengths in front
+				in[0] = first
+				run(in)
+			}
+		}
+	}
+	c.Inner(n)
+	c.NontrivialStr("toplevel", tt.String())
+	c.Outcome(fmt.Sprintf("ptr=%d", ptr))
+	if c.WantSample() || c.Failed() {
+		c.Case(map[string]any{"target": tt.String(), "inputs": n})
+	}
+}
+
 func shortBytes(c *explore.Ctx) {
 	t := pickTarget(c)
 	mode := c.Choose(2)
@@ -734,6 +786,7 @@ func Spec() *explore.Spec {
 		ID: "C07",
 		Families: []*explore.Family{
 			{Name: "short-bytes", ShardDepth: 2, Body: shortBytes, Doc: "all byte strings <=2 over all 256 values and <=5 (6 thorough) over a 16-byte class alphabet x target types covering every codec"},
+			{Name: "toplevel-targets", ShardDepth: 2, Body: toplevelTargets, Doc: "13 non-struct top-level targets (every scalar kind, string, []byte, [8]byte, RawMessage) reached as T, *T and **T x all byte strings <= 2 over all 256 values and 700 patterned strings of length 3..12, each in a buffer whose capacity ends with the input: no panic"},
 			{Name: "length3", ShardDepth: 2, Body: length3, Doc: "all byte strings of length 3 over all 256 values for 6 representative targets"},
 			{Name: "mutations", ShardDepth: 2, Body: mutations, Doc: "valid encodings of boundary values: every prefix, every (position x 256) corruption, every byte replaced by special varints (0,1,127,128,2^31-1,2^32,2^63,2^64-1, 11-byte)"},
 			{Name: "depth-ladder", ShardDepth: 3, HangSeconds: 300, MaxWorkers: 8, Body: depthLadder, Doc: "messages nested 100 ... 4,000,000 deep by the sender through a pointer field, a repeated field and a map value of a recursive message type, complete and cut by one byte: an error or a value, no stack overflow"},
